@@ -249,3 +249,59 @@ Proof.
   split; [apply HashOrder.sum_dec_value; [lia|cbn; unfold max_mant; lia]|].
   reflexivity.
 Qed.
+
+(* ==== The report writers (Model/Output.v write_render_result) ================
+   The map of security tables (HashMap<Security, RenderTable>) is iterated in
+   sorted key order: whatever writer is plugged in (CSV directory, CSV stream,
+   text), the run - every file, every section, the closing list, the failure
+   if any - is the same for every order of the map's entries. *)
+From ACB Require Import Model.CsvFields Model.Render Model.Output Proofs.OutputProps.
+
+(* any writer, any starting state *)
+Theorem C09_output_order : forall (W : Type) (print : W -> out_type -> bytes -> rtable -> W * option fail) w0 r r',
+  NoDup (map fst (ar_secs r)) -> Permutation (ar_secs r) (ar_secs r') ->
+  ar_agg r = ar_agg r' -> ar_costs r = ar_costs r' ->
+  write_render_result print w0 r = write_render_result print w0 r' .
+Proof. exact OutputProps.output_order_independent. Qed.
+Check C09_output_order : forall (W : Type) (print : W -> out_type -> bytes -> rtable -> W * option fail) w0 r r',
+  NoDup (map fst (ar_secs r)) -> Permutation (ar_secs r) (ar_secs r') ->
+  ar_agg r = ar_agg r' -> ar_costs r = ar_costs r' ->
+  write_render_result print w0 r = write_render_result print w0 r' .
+Print Assumptions C09_output_order.
+
+(* the three modes of the application: the directory, the sequence of File::create calls, standard output *)
+Theorem C09_output_order_modes : forall r r' d0,
+  NoDup (map fst (ar_secs r)) -> Permutation (ar_secs r) (ar_secs r') ->
+  ar_agg r = ar_agg r' -> ar_costs r = ar_costs r' ->
+  csv_dir_output d0 r = csv_dir_output d0 r' /\ csv_dir_stdout d0 r = csv_dir_stdout d0 r' /\
+  write_log r = write_log r' /\ text_output r = text_output r' /\ text_stdout r = text_stdout r' /\
+  csv_stream_output r = csv_stream_output r' .
+Proof. 
+  intros r r' d0 Hn Hp Ha Hc.
+  assert (H1 : csv_dir_output d0 r = csv_dir_output d0 r') by (apply OutputProps.output_order_independent; assumption).
+  assert (H2 : text_output r = text_output r') by (apply OutputProps.output_order_independent; assumption).
+  unfold csv_dir_stdout, text_stdout. rewrite H1, H2.
+  repeat split; try reflexivity; [apply OutputProps.write_log_perm; assumption | apply OutputProps.output_order_independent; assumption].
+ Qed.
+Check C09_output_order_modes : forall r r' d0,
+  NoDup (map fst (ar_secs r)) -> Permutation (ar_secs r) (ar_secs r') ->
+  ar_agg r = ar_agg r' -> ar_costs r = ar_costs r' ->
+  csv_dir_output d0 r = csv_dir_output d0 r' /\ csv_dir_stdout d0 r = csv_dir_stdout d0 r' /\
+  write_log r = write_log r' /\ text_output r = text_output r' /\ text_stdout r = text_stdout r' /\
+  csv_stream_output r = csv_stream_output r' .
+Print Assumptions C09_output_order_modes.
+
+Definition w_tab (rows : list record) (errs : list text) : rtable :=
+  {| rt_header := [lit [72%N]; lit [73%N]]; rt_rows := rows; rt_footer := []; rt_notes := []; rt_errors := errs |}.
+Definition w_secs : list (bytes * rtable) :=
+  [([98%N], w_tab [] [lit [101%N]]); ([66%N], w_tab [[lit [49%N]; lit [50%N]]] []); ([97%N], w_tab [] [lit [102%N]])].
+Definition w_app (l : list (bytes * rtable)) : app_result := {| ar_secs := l; ar_agg := w_tab [] []; ar_costs := None |}.
+Example C09_output_order_nonvacuous :
+  NoDup (map fst w_secs) /\ Permutation w_secs (rev w_secs) /\
+  text_stdout (w_app w_secs) = text_stdout (w_app (rev w_secs)) /\
+  ro_errsecs (csv_dir_output [] (w_app w_secs)) = [[97%N]; [98%N]] /\
+  write_log (w_app (rev w_secs)) = [[66%N] ++ s_dot_csv; [97%N] ++ s_dot_csv; [98%N] ++ s_dot_csv; s_aggregate_gains_csv].
+Proof.
+  split; [repeat constructor; cbn; intuition discriminate|].
+  split; [apply Permutation_rev|]. vm_compute. repeat split.
+Qed.
